@@ -72,6 +72,14 @@ type Node struct {
 	Restarts    int
 }
 
+// Logger is the context logger of simulated blocks (a no-op unless VERIF_DEBUG_LOG=1).
+var Logger log.Logger = func() log.Logger {
+	if os.Getenv("VERIF_DEBUG_LOG") == "1" {
+		return log.NewLogger(os.Stdout, log.LevelOption(-1))
+	}
+	return log.NewNopLogger()
+}()
+
 var processHome string
 
 // home returns a per-process scratch directory (the wasm VM takes an
@@ -228,7 +236,7 @@ func (n *Node) BeginBlock(dt time.Duration) (pv interface{}) {
 	hdr := tmproto.Header{ChainID: ChainID, Height: n.Height, Time: n.Time, AppHash: n.LastAppHash,
 		ProposerAddress: sdk.ConsAddress(n.consAddr(0))}
 	n.blockMS = n.App.CommitMultiStore().CacheMultiStore()
-	n.Ctx = sdk.NewContext(n.blockMS, hdr, false, log.NewNopLogger()).
+	n.Ctx = sdk.NewContext(n.blockMS, hdr, false, Logger).
 		WithBlockGasMeter(storetypes.NewInfiniteGasMeter()).
 		WithGasMeter(storetypes.NewInfiniteGasMeter()).
 		WithExecMode(sdk.ExecModeFinalize).
@@ -348,6 +356,14 @@ func (n *Node) DeliverOn(parent sdk.Context, msg sdk.Msg, gasLimit uint64, force
 			// hook wrapper); the transaction fails either way
 			res.Outcome = "oog"
 		}
+		return res
+	}
+	if gasLimit > 0 && (gm.IsPastLimit() || gm.IsOutOfGas()) {
+		// An out-of-gas panic was recovered further down and swallowed (e.g. by a hook
+		// wrapper) so the handler returned normally with the meter past its limit. On a
+		// real node the transaction still fails: the post handler's first store read on
+		// the same meter re-raises out-of-gas and everything is rolled back.
+		res.Outcome = "oog"
 		return res
 	}
 	res.Resp = r
